@@ -63,6 +63,38 @@ Proof.
   destruct Hspec as (t1 & Hbad). discriminate Hbad.
 Qed.
 
+(* C15 / C14 for the text: WHATEVER the generated expand_block returns -- True, False at a size limit, the motif-limit error, out of fuel -- the diagram
+   it leaves is the model's, hence well-formed, an extension of the one it started from, and with sound cache tags *)
+Definition flow_sd {R S : Type} (f : sflow R S) : sd :=
+  match f with SRet d _ => d | SRaise d _ => d | SBad d => d | SFuel d => d | SCont d _ => d | SNext d _ => d end.
+
+Lemma py_api_expand_block_flow_sd : forall fuel N cfg d tape maa sz opt exact, SWF N d ->
+  flow_sd (py_api_expand_block fuel N cfg d tape maa sz opt exact) = fst (expand_block fuel N cfg d maa opt sz tape).
+Proof.
+  intros fuel N cfg d tape maa sz opt exact Hswf.
+  pose proof (py_api_expand_block_spec fuel N cfg d tape maa sz opt exact Hswf) as Hspec.
+  destruct (expand_block fuel N cfg d maa opt sz tape) as [d1 r]. cbn [fst].
+  unfold blk_outcome in Hspec. destruct r; try (rewrite Hspec; reflexivity).
+  destruct Hspec as (t1 & Heq). rewrite Heq. reflexivity.
+Qed.
+
+Theorem py_api_expand_block_any_result : forall fuel N cfg d tape maa sz opt exact, SWF N d ->
+  SWF N (flow_sd (py_api_expand_block fuel N cfg d tape maa sz opt exact)) /\
+  extends d (flow_sd (py_api_expand_block fuel N cfg d tape maa sz opt exact)).
+Proof.
+  intros fuel N cfg d tape maa sz opt exact Hswf. rewrite (py_api_expand_block_flow_sd _ _ _ _ _ _ _ _ _ Hswf).
+  split; [apply expand_block_SWF|apply expand_block_extends]; exact Hswf.
+Qed.
+
+Theorem py_api_expand_block_CacheOK : forall fuel N cfg d tape maa sz opt exact, SWF N d -> NoStubEdges d -> CacheOK d ->
+  CacheOK (flow_sd (py_api_expand_block fuel N cfg d tape maa sz opt exact)).
+Proof.
+  intros fuel N cfg d tape maa sz opt exact Hswf Hn Hc. rewrite (py_api_expand_block_flow_sd _ _ _ _ _ _ _ _ _ Hswf).
+  apply expand_block_CacheOK; assumption.
+Qed.
+
+Print Assumptions py_api_expand_block_any_result.
+Print Assumptions py_api_expand_block_CacheOK.
 Print Assumptions py_api_expand_block_complete.
 Print Assumptions py_api_expand_block_complete_from.
 Print Assumptions py_api_build_one_to_one.
